@@ -438,6 +438,10 @@ func (s *State) evalDelete(node ast.Node) object.Object {
 		if name == "" {
 			return s.NewError("delete empty identifier")
 		}
+		if object.Constant(name) {
+			// Deleting a constant is the one way to rebind it: results remembered for functions reading it are stale.
+			s.ResetCache()
+		}
 		return s.env.Delete(name)
 	case token.DOT:
 		idxE := node.(*ast.IndexExpression)
